@@ -211,6 +211,7 @@ func runC11(e *Env) {
 		reached := got == route
 		should := nq == wantPath
 		t.Count("equivalence.pairs", 1)
+		t.Tracef("stored as %q; request %q normal form %q: reached=%v (expected %v)", route.Path(), Q, nq, reached, should)
 		if should {
 			t.Count("equivalence.pairs_equal", 1)
 		}
